@@ -3,6 +3,7 @@ import I18n.Lemmas.MetaDeb
 import I18n.Lemmas.MetaBinary
 import I18n.Lemmas.MetaBlame
 import I18n.Lemmas.MetaRealBinary
+import I18n.Lemmas.MetaRealCharset
 import I18n.Spec.Metamorphic
 import I18n.Generated.BinaryReads
 /-!
@@ -508,6 +509,44 @@ theorem po_vs_mo_composed_check (w : Real.World) (env : Po.Env) (db : Mo.CodecDB
     rw [e1, e2, a, b, List.filter_filter]
     simp
 
+/-- **Transcoding for the composed checker.**  Two `ctx` related by `Real.TcRel`: everything equal, except that the header
+    entries' texts may differ in the charset name of their one well-formed `Content-Type: text/plain; charset=<name>` line
+    (`Real.EntryRel` / `Real.HeaderRel`: same unusual characters, same parsed lines but that one), both names known to the
+    tool (`Real.TcName`: C20's fragment returns an encoding).  Then the two runs print the same lines in the same order,
+    apart from the charset tags of `check_mime` (`Real.notCharset`: boilerplate-in-content-type, unknown-encoding,
+    non-ascii-compatible-encoding, non-portable-encoding, unrepresentable-characters), and raise alike.  The
+    charset-name-blindness of every other stage is PROVED for the instantiated models (Lemmas/MetaRealCharset.lean):
+    `check_headers` parses the name into `ctx.metadata` and prints the same tags; `check_language`, `check_plurals`,
+    `check_project`, `check_translator` read other fields; `check_dates` looks at the Content-Type value for the
+    Publican prefix only; `check_messages` and the format checkers see `ctx.encoding is not None` only.
+    `Real.DbOk`: `\b` holds between the blank and `charset` (` ` is not a word character, `c` is). -/
+theorem transcoding_composed (w : Real.World) (hdb : Real.DbOk w.hx.db) (fl : BinFlags) (k1 k2 : Real.RCtx) (h : Real.TcRel w k1 k2) :
+    Spec.Metamorphic.EqModulo Real.notCharset (runStages (Real.pipeline w) (fl, k1)).1 (runStages (Real.pipeline w) (fl, k2)).1 ∧
+    (runStages (Real.pipeline w) (fl, k1)).2 = (runStages (Real.pipeline w) (fl, k2)).2 :=
+  runStages_sim (Real.TcRelS w) Real.notCharset _ _ (Real.pipeline_respects_tc w hdb) (fl, k1) (fl, k2) ⟨rfl, h⟩
+
+/-- the same from the files: two spelled PO files (C10) whose catalogs have the same header comment and entries related
+    by `Real.EntryRel` — e.g. the same catalog transcoded, charset name adjusted -/
+theorem transcoding_composed_files (w : Real.World) (hdb : Real.DbOk w.hx.db) (env : Po.Env) (hpy : PyEnv env) (E1 E2 : Codec)
+    (name1 name2 : Po.Bytes) (cat1 cat2 : CatalogSp) (file1 file2 : Po.Bytes)
+    (h1 : SpelledFile env E1 name1 cat1 file1) (h2 : SpelledFile env E2 name2 cat2 file2)
+    (hheader : cat1.headerText = cat2.headerText)
+    (hentries : Real.ListRel (Real.EntryRel w) ((cat1.entries.map EntrySp.entry).map (observe ∘ ofPoEntry))
+      ((cat2.entries.map EntrySp.entry).map (observe ∘ ofPoEntry)))
+    (isTemplate statOk : Bool) :
+    Spec.Metamorphic.EqModulo (keepLine Real.notCharset) (Real.checkPo w env isTemplate statOk file1).lines
+      (Real.checkPo w env isTemplate statOk file2).lines ∧
+    (Real.checkPo w env isTemplate statOk file1).uncaught = (Real.checkPo w env isTemplate statOk file2).uncaught := by
+  obtain ⟨f1, l1, v1⟩ := poLoad_spelled env hpy E1 name1 cat1 file1 h1
+  obtain ⟨f2, l2, v2⟩ := poLoad_spelled env hpy E2 name2 cat2 file2 h2
+  unfold Real.checkPo
+  rw [check_first_ok statOk _ _ _ _ f1 l1, check_first_ok statOk _ _ _ _ f2 l2]
+  apply check_sim_ok (Real.TcRelS w) Real.notCharset statOk _ f1 f2 _ _ _ _ _ (Real.pipeline_respects_tc w hdb)
+  intro broken
+  show Real.TcRelS w (Real.ctxOfPo isTemplate (poView f1) broken) (Real.ctxOfPo isTemplate (poView f2) broken)
+  rw [v1, v2]
+  exact ⟨rfl, ⟨rfl, rfl, hheader, hentries, Real.MetaRel.refl w _, rfl, rfl, rfl⟩⟩
+
 end Composed
 
 /-! ## non-vacuity -/
@@ -548,5 +587,56 @@ example : checkDates (τ := Unit) true id (fun _ _ => []) [] ["2012-11-01 14:42+
 
 example : observe (ofMo ⟨['a'], none, .singular ['b']⟩) = observe (ofPo ⟨['a'], none, .singular ['b']⟩) := by decide
 example : ofMo ⟨['a'], none, .singular ['b']⟩ ≠ ofPo ⟨['a'], none, .singular ['b']⟩ := by decide
+
+/-! ### non-vacuity of the composed theorems: a small world, a header without POT-Creation-Date, one message -/
+
+namespace Demo
+
+def demoDb : Hdr.UDB := ⟨fun c => c.isAlphanum || c == '_', fun c => c == ' ' || c == '\t' || c == '\n', fun c => c.isDigit, id⟩
+def demoW : Real.World where
+  hx := ⟨demoDb, id, fun _ => none, fun _ => false, fun _ => none⟩
+  now := 0
+  menv := Msg.liveEnv (fun _ => .ok)
+  munch := id
+  path := []
+  optLanguage := none
+  charset := fun _ _ n => .ok ([], some n)
+  pluralForms := fun _ => (none, [])
+  reprParen := fun _ _ => []
+  kmsg := fun _ _ => .other
+
+def obsOf (msgid msgstr : String) : Obs :=
+  { msgid := msgid.toList, msgctxt := none, msgidPlural := none, msgstrOrEmpty := msgstr.toList, msgstrPlural := [], flags := [],
+    commentOrEmpty := [], occurrences := [], obsolete := false, hasPrevious := (false, false, false), translated := true }
+
+def hdr (cs : String) : String := "Language: de\nContent-Type: text/plain; charset=" ++ cs ++ "\nPO-Revision-Date: 2012-11-01 14:42+0100\n"
+def ctxOf (cs : String) : Real.RCtx :=
+  { isTemplate := false, broken := false, comments := [], entries := [obsOf "" (hdr cs), obsOf "a" "b"] }
+
+example : (runStages (Real.pipeline demoW) (⟨false, false⟩, ctxOf "UTF-8")).1.any Real.isExempt = true := by decide +kernel
+example : (runStages (Real.pipeline demoW) (⟨true, false⟩, ctxOf "UTF-8")).1.any Real.isExempt = false := by decide +kernel
+
+theorem tcName (n : String) (h1 : n.toList ≠ []) (h2 : ∀ c ∈ n.toList, demoDb.isSpace c = false ∧ c ≠ ';') : Real.TcName demoW n.toList :=
+  ⟨h1, h2, fun _ _ => ⟨[], Hdr.toName n.toList, rfl⟩⟩
+
+theorem hdrRel : Real.HeaderRel demoW (hdr "UTF-8").toList (hdr "ISO-8859-2").toList := by
+  refine ⟨by decide +kernel, ?_⟩
+  have e1 : Hdr.parseHeader (hdr "UTF-8").toList = [Hdr.Line.field "Language".toList "de".toList] ++
+      Hdr.Line.field Real.ctKey (Real.ctValue "UTF-8".toList) :: [Hdr.Line.field "PO-Revision-Date".toList "2012-11-01 14:42+0100".toList] := by decide +kernel
+  have e2 : Hdr.parseHeader (hdr "ISO-8859-2").toList = [Hdr.Line.field "Language".toList "de".toList] ++
+      Hdr.Line.field Real.ctKey (Real.ctValue "ISO-8859-2".toList) :: [Hdr.Line.field "PO-Revision-Date".toList "2012-11-01 14:42+0100".toList] := by decide +kernel
+  rw [e1, e2]
+  exact Real.LinesRel.subst _ _ _ _ (tcName "UTF-8" (by decide) (by decide)) (tcName "ISO-8859-2" (by decide) (by decide)) 
+    (by intro l hl v e; simp at hl; subst hl; injection e with e1 _; exact absurd e1 (by decide))
+    (by intro l hl v e; simp at hl; subst hl; injection e with e1 _; exact absurd e1 (by decide))
+
+/-- the two contexts are related, so `transcoding_composed` applies to them -/
+theorem ctxRel : Real.TcRel demoW (ctxOf "UTF-8") (ctxOf "ISO-8859-2") :=
+  ⟨rfl, rfl, rfl,
+   .cons (Or.inr ⟨rfl, rfl, rfl, (hdr "ISO-8859-2").toList, rfl, hdrRel⟩) (.cons (Or.inl rfl) .nil),
+   Real.MetaRel.refl _ _, rfl, rfl, rfl⟩
+
+example := transcoding_composed demoW ⟨by decide, by decide⟩ ⟨false, false⟩ _ _ ctxRel
+end Demo
 
 end I18n.Props.C17
